@@ -235,7 +235,11 @@ def generate(ctx):
             fn = ast.unparse(node.func)
             last = fn.split(".")[-1]
             if last in ("reduce_operator", "cat", "unsqueeze", "select", "size"):
-                cand = node.args[-1] if last in ("reduce_operator", "cat", "unsqueeze", "size") else node.args[0]
+                kws = {k.arg: k.value for k in node.keywords}
+                if "dim" in kws:
+                    cand = kws["dim"]
+                else:
+                    cand = node.args[-1] if last in ("reduce_operator", "cat", "unsqueeze", "size") else node.args[0]
                 dims.append(ast.unparse(cand))
             elif last in ("complex_multiplication", "range", "append", "extend", "len", "enumerate", "zip", "list", "tuple"):
                 continue  # no axis argument
